@@ -161,7 +161,7 @@ Qed.
    the original payload) is handed to the enclosing machine *)
 Lemma back_enter_exit_point fuel s ev ety rn g :
   child children s = None -> s_kind (get_state mc s) = KExitPt ety -> g_plan g = [] ->
-  exec_entry mc children fuel s ev EkPlain rn g =
+  exec_entry cf mc children fuel s ev EkPlain rn g =
     (Some tt, rn, Glob (Cb KEntry [] s ev false (act rn) :: g_tr g) (S (g_cb g)) [] (g_val g)
                        (g_up g ++ [Evt ety (e_pay ev)]) (g_bad g)).
 Proof.
